@@ -216,7 +216,8 @@ def gen_ops(rng, tier):
         if rng.random() < 0.8:
             L, R = left(a, ym), _durlike(rng, b, ym)
         else:
-            L, R = ("T", a), _dur(rng, b, ym)             # reflected: timedelta op Duration
+            # reflected: timedelta op Duration / timedelta op Interval (Interval.__radd__, __rsub__)
+            L, R = ("T", a), (_dur(rng, b, ym) if rng.random() < 0.7 or not 0 < abs(b) < VMAX else ("V", b))
         if _ok(o, L, R):
             yield ("durop", o, L, R)
         if rng.random() < 0.12 and 0 < abs(b) < VMAX:
@@ -234,7 +235,7 @@ def gen_ops(rng, tier):
             a = 2 * (a // 2) + 1                           # odd length x (m + 1/2): half-way ties
             k = ("F",) + (rng.randint(-9, 9) + 0.5).as_integer_ratio()
         X = left(a, ym=isint and rng.random() < 0.35)
-        L, R = (X, k) if rng.random() < 0.75 or X[0] == "V" else (k, X)
+        L, R = (X, k) if rng.random() < 0.75 else (k, X)          # reflected: scalar * Duration / scalar * Interval
         if _ok("mul", L, R):
             yield ("durop", "mul", L, R)
     # truediv / floordiv by int, truediv by float
